@@ -81,9 +81,38 @@ func parseYAML(reader io.Reader, envUsageEnabled bool) (*RuleSet, error) {
 		return nil, err
 	}
 
+	if !hasOnlyStringKeys(rawConfig) {
+		return nil, errorchain.NewWithMessage(heimdall.ErrConfiguration,
+			"rule set contains a mapping with a key, which is not a string")
+	}
+
 	if err := DecodeConfig(rawConfig, &ruleSet); err != nil {
 		return nil, err
 	}
 
 	return &ruleSet, nil
+}
+
+// hasOnlyStringKeys reports whether all mappings in the given value have string keys only. The yaml decoder
+// represents mappings with other keys (numbers, booleans, null, sequences, etc) as map[any]any, which
+// cannot be decoded into the configuration types.
+func hasOnlyStringKeys(value any) bool {
+	switch val := value.(type) {
+	case map[string]any:
+		for _, v := range val {
+			if !hasOnlyStringKeys(v) {
+				return false
+			}
+		}
+	case []any:
+		for _, v := range val {
+			if !hasOnlyStringKeys(v) {
+				return false
+			}
+		}
+	case map[any]any:
+		return false
+	}
+
+	return true
 }
